@@ -366,3 +366,45 @@ def loop_body_always_calls(body, pred, max_paths=20000):
                     if not (p.ret and p.ret[0] in ("call", "agg") and ("Err" in show(p.ret) or "from_residual" in show(p.ret))):
                         problems.add("an iteration leaves the function without the expected call")
     return n, sorted(problems)
+
+
+def builder_carry_over(ck, F, rid, prefixes):
+    """Consuming builder / converter methods (`fn with_x(self, ..) -> Self`, `fn json(self) -> Format<Json, T>`) rebuild
+    the struct field by field. A field of the result that is taken from `self` must be taken from the *same-named* field:
+    a copy from a different field (`display_level: self.display_target`) silently rewires one option to another.
+    Fields given a fresh value (a parameter, a constant, a call) are the method's own business and are not judged."""
+    from rulekit import where
+    n = 0
+    for b in F.body_list:
+        if not any(b.path.startswith(p) for p in prefixes) or b.argc < 1 or len(b.raw["locals"]) < 2:
+            continue
+        ty = str(b.raw["locals"][1])
+        base = ty.split("<")[0].lstrip("&").replace("mut ", "")
+        carried, crossed = [], []
+        for i, j, st in b.stmts():
+            if st["k"] != "assign" or "agg" not in st["rv"]:
+                continue
+            a = st["rv"]["agg"]
+            if a.get("adt") != base or not a.get("fields"):
+                continue
+            for f, op in zip(a["fields"], st["rv"]["ops"]):
+                o = b.origin(op)
+                if o[0] == "arg" and o[1] == 1 and o[2]:
+                    g = o[2][0].get("n")
+                    (carried if g == f else crossed).append((f, g))
+        if not carried and not crossed:
+            continue
+        n += 1
+        flat = b.path
+        while "<" in flat:
+            flat2 = __import__("re").sub(r"::<[^<>]*>|<[^<>]*>", "", flat)
+            if flat2 == flat:
+                break
+            flat = flat2
+        short = "::".join(flat.split("::")[-2:])
+        key = "%s carries every option over from the field of the same name" % short
+        if crossed:
+            ck.bad(rid, key, where(b.raw["sp"]), "; ".join("`%s` is filled from `self.%s`" % x for x in crossed), fn=b.path)
+        else:
+            ck.ok(rid, key, fn=b.path, detail=len(carried))
+    return n
